@@ -377,7 +377,7 @@ func main() {
 		Level: "exploration",
 		Rule: "cases 0..29 enumerate BPFMaglevMaxEndpointsPerService = 1..3000 (100 values each) through the real config parser and judge the size; every case then builds tables: size from {smallest (5), default (503), largest (15013 and other large), a random configurable size}, " +
 			"1..64 backends (thorough up to 300; up to the configured maximum for small tables) in four address styles (consecutive IPs, one IP many ports, IPv6, random), FNV-32 hashers as in the syncer (1/5 of cases other hash.Hash implementations); " +
-			"the table is rebuilt on 7 other 'nodes' (reverse, generation, two shuffled orders with duplicate/nil/mid-history-Generate noise, used hash objects, repeated Generate). Non-trivial = table at least as large as the backend set; distinct by size, hash and backend set",
+			"the table is rebuilt on 6 other 'nodes' (reverse, generation, two shuffled orders with duplicate/nil/mid-history-Generate noise, used hash objects, repeated Generate). Non-trivial = table at least as large as the backend set; distinct by size, hash and backend set",
 		Assumptions: []string{
 			"NOT CHECKED: the byte-order clause. hashFromString reads the hash with binary.NativeEndian, so the permutation depends on the node's CPU byte order; no big-endian executor (qemu-user, s390x) exists in this sandbox, so tables are only compared between little-endian executions",
 			"balance is judged as 'slot counts of any two backends differ by at most 1' (backends claim one slot per turn)",
